@@ -226,6 +226,7 @@ def run_pipeline(sc, pipe, table, fingerprints=None):
 
 class C03(Prop):
     id = 'C03'
+    extracted = True      # what a pool task receives / sends back, regenerated from the current source (harness/extract_m.py, Extracted/EquivC03.lean)
     quick_cases = 400
     thorough_cases = 6000
     quick_budget_s = 100
